@@ -118,7 +118,7 @@ func c16AtomicReplace(r *an.Run) {
 				continue
 			}
 			edges := errNilEdges(call)
-			if len(edges) > 0 && !reachedWithout(call, point{nil, e.Site.Block()}, edges) && call.Block().Dominates(e.Site.Block()) {
+			if len(edges) > 0 && !reachedWithout(call, point{pred: nil, blk: e.Site.Block()}, edges) && call.Block().Dominates(e.Site.Block()) {
 				need[name] = true
 			}
 		}
@@ -672,6 +672,9 @@ func c16Messages(r *an.Run, m *runModel) {
 			}
 			if _, isW := isStdoutWrite(c); isW {
 				givenPath = true // a failing output stream is not a per-file failure; it has no path to name
+			}
+			if hc, isCall := c.(*ssa.Call); isCall && echoHelperWrite(m, hc) != nil {
+				givenPath = true // the helper that echoes an unmatched file returns the stream's error only
 			}
 			if !givenPath {
 				good = false
